@@ -83,8 +83,13 @@ pub fn run(args: &Args) -> Report {
     }
     for (i, text) in texts.iter().enumerate() {
         let strict = i % 2 == 0;
-        let (file, _) = match load(text, strict) {
-            Loaded::Ok(f, l) => (f, l),
+        let (file, lenient_ident) = match load(text, strict) {
+            // (non-strict reading of IF_DATA accepts an identifier where the A2ML definition has a string, with a
+            //  diagnostic, and writes it back quoted: the token stays on its line but changes its kind)
+            Loaded::Ok(f, l) => {
+                let len = log_text(&l).contains("UnexpectedTokenType");
+                (f, len)
+            }
             Loaded::Panic(p) => {
                 rep.fail("panic", hex(text.as_bytes()), p);
                 continue;
@@ -103,7 +108,7 @@ pub fn run(args: &Args) -> Report {
             (Some(a), Some(b)) => {
                 if a.len() != b.len() {
                     rep.fail("token-count", input.clone(), format!("{} significant tokens in, {} out", a.len(), b.len()));
-                } else if let Some(k) = (0..a.len()).find(|&k| a[k] != b[k]) {
+                } else if let Some(k) = (0..a.len()).find(|&k| a[k] != b[k] && !(lenient_ident && a[k].1 == b[k].1 && a[k].0 == 0 && b[k].0 == 4)) {
                     rep.fail("line-shift", input.clone(), format!("significant token #{k} (kind {}) is on line {} in the input and on line {} in the output", a[k].0, a[k].1, b[k].1));
                 }
             }
